@@ -198,6 +198,8 @@ func init() {
 			sc := c05Base(r, "cmd", "identity")
 			sc.Fan.HasEnable = false
 			sc.Fan.CmdOneTool = r.Intn(2) == 0
+			// half of the tools write a diagnostic to stderr while they answer (the value on stdout, exit status 0)
+			sc.Fan.CmdChatty = (ctx.Batch+i)%2 == 1
 			sc.Loop = LoopSpec{Kind: "direct"}
 			traj := genCurveTrajectory(r, 30, false)
 			for k := 0; k < 30; k++ {
